@@ -101,8 +101,8 @@ with g_ext_loop (fuel : nat) (extend : bool) (it : sit) (back : sit) : bool * si
           end
         else if N.eqb c cLB then
           match g_sequence it1 with
-          | Some it2 => go it2 it1
-          | None => go it1 it1
+          | Some it2 => go it2 back        (* the rewind position of the list is not touched by an inner bracket *)
+          | None => go it1 back
           end
         else go it1 back
       end
